@@ -83,7 +83,7 @@ m = {
  ],
  'checks': checks,
  'not_applicable': na,
- 'notes': 'All checks: ./check <property> quick|thorough (cwd /verif); exit 0 held, 1 VIOLATION (replay file under replays/), 2 harness error. VERIF_SEED selects the base seed. Fix commits in /repo: 2d359e1 72e22ca e754aab c0834ce c2d6673 6601b63 (see KNOWN_FINDINGS.txt). Seeded defects used for sensitivity are under seeded/ (236 confirmed changes, DESIGN.md 12.2), behaviour-preserving edits that must stay green under benign/; ./check selftest determinism|sensitivity re-run both catalogues.',
+ 'notes': 'All checks: ./check <property> quick|thorough (cwd /verif); exit 0 held, 1 VIOLATION (replay file under replays/), 2 harness error. VERIF_SEED selects the base seed. Fix commits in /repo: 2d359e1 72e22ca e754aab c0834ce c2d6673 6601b63 (see KNOWN_FINDINGS.txt). Seeded defects used for sensitivity are under seeded/ (243 confirmed changes, DESIGN.md 12.2), behaviour-preserving edits that must stay green under benign/; ./check selftest determinism|sensitivity re-run both catalogues.',
 }
 json.dump(m, open(V + '/MANIFEST.json', 'w'), indent=1)
 print('claimed:', [c['property_id'] for c in checks])
